@@ -104,6 +104,40 @@ def complex_test_kind(cond):
     return "?"
 
 
+def dtype_truth(cond, d):
+    """truth of one atomic branch condition about the array's dtype, for d in float64 / complex64 / complex128 (None: not understood)"""
+    a = cond.single_atom() if isinstance(cond, Rat) else None
+    cplx = d.startswith("complex")
+    if not isinstance(a, Fn):
+        return None
+    if a.name == "iscomplexobj":
+        return cplx
+    if a.name == "isrealobj":
+        return not cplx
+    which = lambda x: ("complexfloating" if "complexfloating" in str(x) else "complex64" if ("complex64" in str(x) or "csingle" in str(x))
+                       else "complex128" if any(t in str(x) for t in ("complex128", "cdouble", "complex_", "builtins.complex", "'complex'")) or
+                       str(x).endswith(".complex") or str(x) == "complex" else "float" if "float" in str(x) else None)
+    if a.name == "issubdtype" and len(a.args) >= 2:
+        w = which(a.args[1])
+        if w == "complexfloating":
+            return cplx
+        if w in ("complex64", "complex128"):
+            return d == w
+        if w == "float":
+            return not cplx
+        return None
+    if a.name == "cmp" and a.args[0] in ("==", "!="):
+        sides = [a.args[1], a.args[2]]
+        ty = [x for x in sides if not (isinstance(x, Rat) and any(isinstance(t, Fn) and t.name == "dtype" for t in x.atoms()))]
+        if len(ty) != 1:
+            return None
+        w = which(ty[0] if not isinstance(ty[0], Rat) else nf(ty[0], 200))
+        if w in ("complex64", "complex128"):
+            return (d == w) == (a.args[0] == "==")
+        return None
+    return None
+
+
 def canon_lead(v, rank=None):
     """leading full slices written explicitly (2-D branch) == Ellipsis (N-D branch); on a path of
     known rank an index tuple naming every axis is the same as one with a leading Ellipsis"""
@@ -195,26 +229,43 @@ def run(rep, tier, root=None):
         rets = I3.returns(g, [arr, (Rat.sym("nx", ("int",)), Rat.sym("ny", ("int",))), Rat.sym("order", ("int",))])
         real_paths, cplx_paths = [], []
         full = I3.paths(g, [arr, (Rat.sym("nx", ("int",)), Rat.sym("ny", ("int",))), Rat.sym("order", ("int",))], split=True)
-        verdicts = set()
+        # every branch decision about the dtype is evaluated for the three representative dtypes; the paths a complex dtype
+        # can take must all be the complex form, the paths a real dtype takes the real form
+        DT = ("float64", "complex64", "complex128")
+        wrong, unknown_test = [], False
+        seen_vals = {d_: [] for d_ in DT}
         for conds, cnf, v in full:
             if any(c.startswith("except") for c in conds):
                 continue
             dt = [(val, t) for val, t in cnf if isinstance(val, Rat) and any(isinstance(a, Fn) and a.name in ("dtype", "iscomplexobj", "issubdtype", "isrealobj")
                                                                               for a in val.atoms())]
-            if len(dt) != 1:
-                continue
-            kind = complex_test_kind(dt[0][0])
-            verdicts.add(kind)
-            is_complex_branch = dt[0][1] if kind != "real-test" else not dt[0][1]
-            (cplx_paths if is_complex_branch else real_paths).append(v)
-        if "wrong" in verdicts:
+            for d_ in DT:
+                ts = [dtype_truth(val, d_) for val, t in dt]
+                if any(x is None for x in ts):
+                    unknown_test = True
+                    continue
+                if all(x == t for x, (val, t) in zip(ts, dt)):
+                    if not any(vk(v) == vk(u) for u in seen_vals[d_]):
+                        seen_vals[d_].append(v)
+        is_cplx_form = lambda v: isinstance(v, Rat) and any(isinstance(a, Fn) and a.name == "imag" for a in v.atoms())
+        for d_ in ("complex64", "complex128"):
+            for v in seen_vals[d_]:
+                if not is_cplx_form(v):
+                    wrong.append(d_)
+                elif not any(vk(v) == vk(u) for u in cplx_paths):
+                    cplx_paths.append(v)
+        for v in seen_vals["float64"]:
+            if not any(vk(v) == vk(u) for u in real_paths):
+                real_paths.append(v)
+        if wrong:
             rep.violation("B3.complex-detection", g.fq + ": the complex branch is taken for every complex dtype",
                           "the test that selects the complex branch does not hold for all complex dtypes (e.g. numpy.issubdtype(complex64, "
-                          "complex) is False): complex64 data falls into the real branch and loses its imaginary part", g.where())
-        elif verdicts <= {"ok", "real-test"} and verdicts:
-            rep.ok("B3.complex-detection", g.fq + ": complex64 and complex128 both take the complex branch")
-        else:
+                          "complex) is False): %s data falls into the real branch and loses its imaginary part" % " and ".join(sorted(set(wrong))), g.where())
+        elif unknown_test or not cplx_paths:
             rep.unknown("B3.complex-detection", g.fq, "unrecognised complex-dtype test", g.where())
+        else:
+            rep.ok("B3.complex-detection", g.fq + ": complex64 and complex128 both take the complex branch")
+        real_paths = [v for v in real_paths if not is_cplx_form(v)] or real_paths
         if len(real_paths) != 1 or len(cplx_paths) != 1:
             rep.unknown("B3.zoom-form", g.fq, "expected one real and one complex path (%d/%d)" % (len(real_paths), len(cplx_paths)), g.where())
             continue
